@@ -120,10 +120,17 @@ def _len_term(t):
     return ("t", strip_sites(t))
 
 
+# lengths learnt from `dst.copy_from_slice(src)` (it returns only if |src| == |dst|): stripped src term -> length form
+_KNOWN_LEN = {}
+
+
 def _seg_len(seg):
     k = seg[0]
     if k == "v":
         t = seg[1]
+        kl = _KNOWN_LEN.get(strip_sites(peel(t)))
+        if kl is not None:
+            return kl
         if t.op == "call" and cname(t) in ("num::<impl u64>::to_le_bytes", "num::<impl u64>::to_be_bytes", "num::<impl u64>::to_ne_bytes"):
             return ("c", 8)
         if t.op == "agg" and t.a[0][0] == "array":
@@ -382,8 +389,20 @@ def _tile(buf, rng, src, orig):
     rk = _range_kind(rng)
     srclen = _total_len(src)
     unk = [("?", strip_sites(orig))]
-    if rk is None or srclen is None:
+    if rk is None:
         return unk
+    # copy_from_slice panics unless |dst| == |src|: once it has returned, the source has the length of the range
+    if rk[0] == "to":
+        srclen = rk[1]
+    elif rk[0] == "range":
+        d = _lin_sub(rk[2], rk[1])
+        srclen = _unlin(d) if d is not None else srclen
+    if srclen is None:
+        return unk
+    if len(src) == 1 and src[0][0] == "v" and rk[0] in ("to", "range"):
+        lf = _lin(srclen)
+        if lf is not None and not lf[1]:
+            _KNOWN_LEN.setdefault(strip_sites(peel(src[0][1])), ("c", lf[0]))
     if rk[0] == "full":
         return _tile_whole(buf, src, orig)
     if not buf or buf[-1][0] != "z":
@@ -393,8 +412,14 @@ def _tile(buf, rng, src, orig):
     if hl is None:
         return unk
     if rk[0] == "to":
-        # dst = buf[..a]: must start in the zero region's beginning, i.e. head empty
-        if head or not _lin_eq(rk[1], srclen):
+        if not _lin_eq(rk[1], srclen):
+            return unk
+        if head:
+            # dst = buf[..a] over already written leading segments of total length a: they are overwritten
+            for k in range(1, len(head) + 1):
+                hl_k = _total_len(head[:k])
+                if hl_k is not None and _lin_eq(hl_k, srclen):
+                    return src + buf[k:]
             return unk
         rest = _zseg(_lin_sub(m, srclen))
         return unk if rest is None else src + rest
